@@ -46,10 +46,17 @@ Print Assumptions C03_never_over_allocated_cold.
    strictly inside its temperature range) and its supply level reaches the top row of the hot segment, the hot duties sum
    to Qh = H[0] up to tol -- whatever the other utilities are.  Symmetric for the cold side and Qc = H[last].
    OPEN: "for every direct-integration target the sums close" (the property's full clause) is NOT proved as one theorem.
-   Missing hypotheses-discharge: (i) that the grid built by create_problem_table_with_t_int contains every utility end
-   point and no row strictly inside a 0.1 K default/isothermal utility (grid construction: C01/C05's model), so that
-   `default_reaches` below yields a CLEAR reaching utility; (ii) on the cold side the code's reach test looks at the
-   SUPPLY end only, so a reaching utility with a glide need not be clear: that is defect D24 (C03_glide_refuted). *)
+   (i) DISCHARGED AS FAR AS IT IS TRUE by the composition with the grid model at the end of this file
+   (proofs/ComposeGridUtility.v): the grid built by create_problem_table_with_t_int (model: grid_of) is strictly descending,
+   consists of rounded input end points only and contains both rounded end points of every utility (C03_model_grid_rows);
+   `clear of the grid` is EQUIVALENT to the input-level condition `isolated` = no stream/utility end point rounds strictly
+   inside the utility's range nor within tol above its top (C03_clear_iff_isolated_hot, _cold); hence the sums close on the model
+   grid for the entry points target_hot / target_cold (C03_sum_closes_on_model_grid_hot_partial, _cold_partial).  Being a row is NOT enough
+   for being clear (a process end point may round into the 0.1 K range of an isothermal utility; the slope bound then acts),
+   so `isolated` -- decidable on the input -- is the precise residual hypothesis, next to the profile hypotheses
+   (pocket-free, within tol of zero at the pinch row: C06's model) and to `default_reaches` yielding an EXTREME utility.
+   (ii) on the cold side the code's reach test looks at the SUPPLY end only, so a reaching utility with a glide need not be
+   clear: that is defect D24 (C03_glide_refuted). *)
 Theorem C03_sum_hot_partial :
   forall T H rh hus u, let Ts := firstn (S rh) T in let Hs := firstn (S rh) H in
   strict_desc Ts = true -> noninc Hs = true -> List.length Ts = List.length Hs -> 0 <= lastq Hs -> lastq Hs <= tol ->
@@ -135,3 +142,98 @@ Theorem C03_nonvacuous :
   /\ pinch_idx tol HAc = (8%nat, 8%nat, true).
 Proof. exact classic_hyps. Qed.
 Print Assumptions C03_nonvacuous.
+
+(* ---------------------------------------------------------------------------------------------------------------------- *)
+(* Composition with the grid model of C01/C05 (model/Cascade.v); lemmas in proofs/ComposeGridUtility.v.                      *)
+(* hot, cold : the zone's process streams as views on the shifted scale; extra : the zone's utilities (grid contributors).   *)
+(* ---------------------------------------------------------------------------------------------------------------------- *)
+From OP Require Import model.Cascade proofs.CascadeSpec proofs.ComposeGridUtility.
+
+(* model_grid IS the temperature column of the problem-table model (any activity window w) *)
+Theorem C03_model_grid_is_table_T :
+  forall w hot cold extra, pT (stage_model w hot cold extra) = grid_of (endpoints (hot ++ cold ++ extra)).
+Proof. exact model_grid_is_table_T. Qed.
+Print Assumptions C03_model_grid_is_table_T.
+
+(* The missing step: for EVERY stream set and utility list (no lattice hypothesis) the model grid is strictly descending,
+   every row is the 6-decimal rounding of an input end point, and both rounded end points of every utility are rows. *)
+Theorem C03_model_grid_rows :
+  forall hot cold extra, let T := grid_of (endpoints (hot ++ cold ++ extra)) in
+  strict_desc T = true
+  /\ (forall x, In x T -> exists e, In e (endpoints (hot ++ cold ++ extra)) /\ x = round_dp grid_round_dp e)
+  /\ (forall v, In v extra -> InQ (round_dp grid_round_dp (lo v)) T /\ InQ (round_dp grid_round_dp (hi v)) T).
+Proof. exact model_grid_rows. Qed.
+Print Assumptions C03_model_grid_rows.
+
+(* `clear of the grid` (what the sum / closed-form theorems need) is equivalent to a condition on the INPUT end points es:
+   isolated_hot tol es u = no end point rounds strictly inside [tmin, tmax] of u nor into (tmax, tmax + tol]. *)
+Theorem C03_clear_iff_isolated_hot :
+  forall es u, clear_hot tol (grid_of es) u = true
+               <-> forallb (fun e => clear_row tol (u_tmaxs u) (u_tmins u) (round_dp grid_round_dp e)) es = true.
+Proof. exact (clear_hot_grid_iff tol). Qed.
+Print Assumptions C03_clear_iff_isolated_hot.
+Theorem C03_clear_iff_isolated_cold :
+  forall es u, clear_cold tol (grid_of es) u = true
+               <-> forallb (fun e => clear_row tol (- u_tmins u) (- u_tmaxs u) (- round_dp grid_round_dp e)) es = true.
+Proof. exact (clear_cold_grid_iff tol). Qed.
+Print Assumptions C03_clear_iff_isolated_cold.
+
+(* The sums close on the model grid, entry points target_hot / target_cold (sign-flip test, |H| > tol test, loop): if ONE
+   utility u of the ladder is isolated among the input end points and extreme (no end point rounds above its top / below its
+   bottom by more than tol), the hot duties sum to Qh = H[0] and the cold ones to Qc = H[last] up to tol -- whatever the
+   other utilities of the ladder are, whatever the size of the demand.
+   _partial: the remaining hypotheses are (a) `isolated` (see above: necessary in this generality), (b) the profile handed to
+   the targeting is non-negative, pocket-free on the segment and within tol of zero at the pinch row (C06's model). *)
+Theorem C03_sum_closes_on_model_grid_hot_partial :
+  forall hot cold extra H rh hus u,
+  let es := endpoints (hot ++ cold ++ extra) in let T := grid_of es in
+  let Ts := firstn (S rh) T in let Hs := firstn (S rh) H in
+  flip tol H = H -> noninc Hs = true -> List.length Ts = List.length Hs -> 0 <= Utility.lastq Hs -> Utility.lastq Hs <= tol ->
+  In u hus -> u_tmins u <= u_tmaxs u ->
+  isolated_hot tol es u = true -> (forall e, In e es -> round_dp grid_round_dp e <= u_tmaxs u + tol) ->
+  headq H - tol <= qsum (target_hot tol T H rh hus) /\ qsum (target_hot tol T H rh hus) <= headq H.
+Proof. exact target_hot_sum_closes_on_model_grid. Qed.
+Print Assumptions C03_sum_closes_on_model_grid_hot_partial.
+Theorem C03_sum_closes_on_model_grid_cold_partial :
+  forall hot cold extra H rc cus u,
+  let es := endpoints (hot ++ cold ++ extra) in let T := grid_of es in
+  let k := Nat.max (rc - 1) 0 in let Ts := skipn k T in let Hs := skipn k H in
+  flip tol H = H -> Hs <> [] ->
+  noninc (rev Hs) = true -> List.length Ts = List.length Hs -> 0 <= headq Hs -> headq Hs <= tol ->
+  In u cus -> u_tmins u <= u_tmaxs u ->
+  isolated_cold tol es u = true -> (forall e, In e es -> u_tmins u - tol <= round_dp grid_round_dp e) ->
+  Utility.lastq H - tol <= qsum (target_cold tol T H rc cus) /\ qsum (target_cold tol T H rc cus) <= Utility.lastq H.
+Proof. exact target_cold_sum_closes_on_model_grid. Qed.
+Print Assumptions C03_sum_closes_on_model_grid_cold_partial.
+
+(* every utility of the ladder isolated: on the model grid the loop IS the lowest-grade-first closed form *)
+Theorem C03_closed_form_on_model_grid_hot :
+  forall hot cold extra H rh hus,
+  let es := endpoints (hot ++ cold ++ extra) in let T := grid_of es in
+  let Ts := firstn (S rh) T in let Hs := firstn (S rh) H in
+  noninc Hs = true -> List.length Ts = List.length Hs -> 0 <= Utility.lastq Hs -> Utility.lastq Hs <= tol ->
+  (forall u, In u hus -> u_tmins u <= u_tmaxs u /\ isolated_hot tol es u = true) ->
+  Forall2 Qeq (assign_hot tol T H rh hus) (spec_hot tol T H rh hus).
+Proof. exact closed_form_hot_on_model_grid. Qed.
+Print Assumptions C03_closed_form_on_model_grid_hot.
+Theorem C03_closed_form_on_model_grid_cold :
+  forall hot cold extra H rc cus,
+  let es := endpoints (hot ++ cold ++ extra) in let T := grid_of es in
+  let k := Nat.max (rc - 1) 0 in let Ts := skipn k T in let Hs := skipn k H in
+  noninc (rev Hs) = true -> List.length Ts = List.length Hs -> 0 <= headq Hs -> headq Hs <= tol ->
+  (forall u, In u cus -> u_tmins u <= u_tmaxs u /\ isolated_cold tol es u = true) ->
+  Forall2 Qeq (assign_cold tol T H rc cus) (spec_cold tol T H rc cus).
+Proof. exact closed_form_cold_on_model_grid. Qed.
+Print Assumptions C03_closed_form_on_model_grid_cold.
+
+(* non-vacuity: classic four-stream problem + a 0.1 K hot utility on top and a 0.1 K cold utility at the bottom: both are
+   isolated and extreme; a stream end point inside the 0.1 K range of the utility breaks isolation *)
+Theorem C03_on_grid_nonvacuous :
+  grid_of (endpoints (nv_hot ++ nv_cold ++ nv_extra)) = [2451 # 10; 245; 235; 195; 185; 145; 75; 35; 25; 249 # 10]
+  /\ isolated_hot tol (endpoints (nv_hot ++ nv_cold ++ nv_extra)) nv_hu = true
+  /\ isolated_cold tol (endpoints (nv_hot ++ nv_cold ++ nv_extra)) nv_cu = true
+  /\ forallb (fun e => qleb (round_dp grid_round_dp e) (u_tmaxs nv_hu + tol) && qleb (u_tmins nv_cu - tol) (round_dp grid_round_dp e))
+             (endpoints (nv_hot ++ nv_cold ++ nv_extra)) = true
+  /\ isolated_hot tol (endpoints ([mkV 35 (24505 # 100) 1] ++ nv_cold ++ nv_extra)) nv_hu = false.
+Proof. exact on_grid_nonvacuous. Qed.
+Print Assumptions C03_on_grid_nonvacuous.
